@@ -195,6 +195,8 @@ def task_afterloop(task):
         for gtext, (gtype, gdata) in zip(goals, parsed_goals):
             gr = {"goal": gtext, "type": gtype}
             res["goals"].append(gr)
+            import time as _time
+            _t0 = _time.time()
             try:
                 buf = io.StringIO()
                 old = sys.stdout
@@ -223,6 +225,7 @@ def task_afterloop(task):
                 if sp.sympify(value).free_symbols:
                     gr["after_loop_values"] = values(value, nvals)
                 gr["is_exact"] = bool(is_exact)
+                gr["seconds_after_loop"] = round(_time.time() - _t0, 2)
                 gr["monom"] = str(monom)
                 gr["order"] = int(order)
             except BaseException as e:  # noqa
